@@ -23,7 +23,8 @@ Missing == TCPtr(TNm("Missing"))
 
 Params(n, bad) == [i \in 1..n |-> Arg(PNames[i], IF bad = i THEN Missing ELSE PTypes[i])]
 RecvArg(r) == IF r = "const" THEN <<ArgC>> ELSE IF r = "mut" THEN <<ArgM>> ELSE <<>>
-RetTy(r) == CASE r = "u32" -> TNm("u32") [] r = "ptr" -> TMPtr(TNm("T")) [] r = "missing" -> TNm("Missing") [] OTHER -> TNone
+RetTy(r) == CASE r = "u32" -> TNm("u32") [] r = "ptr" -> TMPtr(TNm("T")) [] r = "missing" -> TNm("Missing")
+              [] r = "pvoid" -> TMPtr(TNm("void")) [] OTHER -> TNone
 
 F(name, recv, n, bad, ret, addr) ==
   Func(name, "pub", <<>>, RecvArg(recv) \o Params(n, bad), RetTy(ret), addr, None, "")
@@ -43,9 +44,11 @@ MkInput(ptr, recv, n, bad, ret, addr, second, single, ek, eaddr) ==
       f2 == CASE second = "distinct"  -> <<F("h", "mut", 1, 0, "none", 393216)>>
               [] second = "dup"       -> <<F("f", "mut", 1, 0, "none", 393216)>>
               [] second = "inherited" -> <<F("tick", "mut", 1, 0, "none", 393216)>>
+              (* an #[address] written on the impl block is not an address of its functions *)
+              [] second = "blockaddr" -> <<F("h", "mut", 1, 0, "none", None)>>
               [] OTHER -> <<>>
       impls == (IF useBase THEN <<Impl("B", <<F("tick", "mut", 1, 0, "none", 458752)>>)>> ELSE <<>>)
-               \o <<Impl("T", <<f1>> \o f2)>>
+               \o <<[Impl("T", <<f1>> \o f2) EXCEPT !.battrs = IF second = "blockaddr" THEN <<"address(0x70000)">> ELSE <<>>]>>
       evals == IF ek = "none" THEN <<>>
                ELSE IF ek = "two" THEN <<ExtVal("gv", "pub", TNm("u32"), 4096), ExtVal("hv", "pub", TMPtr(TNm("u16")), eaddr)>>
                ELSE <<ExtVal("gv", "pub", EvalTy(ek), eaddr)>>
@@ -60,8 +63,10 @@ MkInput(ptr, recv, n, bad, ret, addr, second, single, ek, eaddr) ==
 
 MCInit ==
   /\ \E ptr \in Ptrs, recv \in Recvs, n \in 0..MaxP, bad \in Bad, ret \in Rets, addr \in Addrs,
-        second \in Seconds, single \in Singles, ek \in EvalKinds, eaddr \in {None, 196608} :
+        second \in Seconds, single \in Singles, ek \in EvalKinds, eaddr \in {None, 196608, 4096} :
         /\ bad <= n
+        (* 4096 is also the address of the first of two extern values: two views of one location *)
+        /\ (eaddr = 4096 => ek = "two")
         /\ (ek = "none" => eaddr = None)
         (* keep the product small: vary the accessor side only with the simplest function *)
         /\ ((single # "none" \/ ek # "none") => (n = 0 /\ ret = "none" /\ second = "none" /\ recv = "const" /\ addr = 327680))
